@@ -185,6 +185,28 @@ def _run(R):
                   {"sql": f"select * from t where {pred}"}, {"sql": "select * from u"}]
         tc.append({"engine": rng.choice(["mem", "disk"]), "steps": steps, "rows": [], "cols": ["int", "varchar", "int", "query:" + pred], "header": None, "escape": None,
                    "null": False, "empty": False, "special": False})
+    # directed: COPY t(column list) TO / COPY u(column list) FROM — a reordering or a subset of the table's columns
+    TYPES = {"g": "int", "s": "varchar", "n": "int", "m": "int"}
+    for i in range(12 if R.tier == "quick" else 100):
+        f = os.path.join(BASE, f"l{i}.csv")
+        lst = rng.sample(["g", "s", "n", "m"], rng.randint(1, 4))
+        if lst == ["g", "s", "n", "m"][:len(lst)] and len(lst) == 4:
+            lst.reverse()
+        rows = [(k, rng.choice(["a", "b,c", "x y"]), rng.randint(10, 19), rng.randint(100, 109)) for k in range(rng.randint(1, 5))]
+        if rng.random() < 0.5:
+            # import through the same list into a table declared in another order
+            decl_u = ", ".join(f"{c} {TYPES[c]}" for c in sorted(lst))
+            imp = f"copy u({', '.join(lst)}) from '{f}'"
+            sel_u = f"select {', '.join(lst)} from u"
+        else:
+            decl_u = ", ".join(f"{c} {TYPES[c]}" for c in lst)
+            imp = f"copy u from '{f}'"
+            sel_u = "select * from u"
+        steps = [{"sql": "create table t(g int, s varchar, n int, m int)"}, {"sql": f"create table u({decl_u})"},
+                 {"sql": "insert into t values " + ", ".join(f"({g}, {sql_str(sv)}, {n}, {m})" for g, sv, n, m in rows)},
+                 {"sql": f"copy t({', '.join(lst)}) to '{f}'"}, {"sql": imp}, {"sql": f"select {', '.join(lst)} from t"}, {"sql": sel_u}]
+        tc.append({"engine": rng.choice(["mem", "disk"]), "steps": steps, "rows": [], "cols": ["column-list"], "header": None, "escape": None,
+                   "null": False, "empty": False, "special": False})
     outs = run_harness("sql", [{"engine": c["engine"], "steps": c["steps"]} for c in tc], jobs=16)
     kinds = {}
     for c, o in zip(tc, outs):
